@@ -111,6 +111,15 @@ func (e *Env) call(x *ECall) Val {
 		key := "E|" + typeKey(st.Elem())
 		g.ensureKey(key, g.sortOf(st.Elem()))
 		return Val{S: app("select", e.heapGet(key), app("s_arr", v.S)), Sort: fmt.Sprintf("(Array %s %s)", g.idxSort(), g.sortOf(st.Elem())), ElemGT: st.Elem()}
+	case "elemptr":
+		v := arg(0)
+		st, ok := v.GT.Underlying().(*types.Slice)
+		if !ok {
+			e.fail("elemptr needs a slice")
+		}
+		i := e.concretize(arg(1), tInt)
+		arr := app("s_arr", v.S)
+		return Val{S: fmt.Sprintf("(mk-ptr (obj %s) (elem (path %s) %s))", arr, arr, app("sl.idx", v.S, g.toIdx(i))), Sort: "Ptr", GT: types.NewPointer(st.Elem())}
 	case "off":
 		v := arg(0)
 		return Val{S: app("s_off", v.S), Sort: g.idxSort(), GT: tInt}
